@@ -40,22 +40,46 @@ func goid() string {
 	return "?"
 }
 
-// goroutineBlocked reports whether the goroutine is parked (waiting for a lock, a channel, ...)
-// as opposed to running or runnable but starved; unknown if it cannot be found in the dump.
-func goroutineBlocked(id string) (blocked, known bool) {
+// One goroutine dump serves every history whose watchdog fired before it was taken.
+var (
+	dumpMu     sync.Mutex
+	dumpAt     time.Time
+	dumpStates map[string]string
+)
+
+func statesSince(t time.Time) map[string]string {
+	dumpMu.Lock()
+	defer dumpMu.Unlock()
+	if dumpStates != nil && dumpAt.After(t) {
+		return dumpStates
+	}
 	buf := make([]byte, 8<<20)
 	n := runtime.Stack(buf, true)
-	dump := string(buf[:n])
-	i := strings.Index(dump, "goroutine "+id+" [")
-	if i < 0 {
+	at := time.Now()
+	st := map[string]string{}
+	for _, blk := range strings.Split(string(buf[:n]), "\n\n") {
+		if !strings.HasPrefix(blk, "goroutine ") {
+			continue
+		}
+		rest := blk[len("goroutine "):]
+		i := strings.Index(rest, " [")
+		j := strings.IndexByte(rest, ']')
+		if i < 0 || j < i {
+			continue
+		}
+		st[rest[:i]] = rest[i+2 : j]
+	}
+	dumpAt, dumpStates = at, st
+	return st
+}
+
+// goroutineBlocked reports whether the goroutine is parked (waiting for a lock, a channel, ...)
+// as opposed to running or runnable but starved; unknown if it cannot be found in the dump.
+func goroutineBlocked(id string, since time.Time) (blocked, known bool) {
+	st, ok := statesSince(since)[id]
+	if !ok {
 		return false, false
 	}
-	rest := dump[i+len("goroutine "+id+" ["):]
-	j := strings.IndexByte(rest, ']')
-	if j < 0 {
-		return false, false
-	}
-	st := rest[:j]
 	for _, p := range []string{"running", "runnable", "syscall", "GC ", "preempted", "copystack"} {
 		if strings.HasPrefix(st, p) {
 			return false, true
@@ -293,7 +317,7 @@ func runHistory(protocol int, hasBackend bool, ops []op) []stepObs {
 			case <-time.After(wait):
 				// no return within the watchdog: stuck if the goroutine is parked (it waits for a lock it
 				// will never get); if it is merely starved on a loaded machine, keep waiting
-				blocked, known := goroutineBlocked(id)
+				blocked, known := goroutineBlocked(id, time.Now())
 				if (known && blocked) || time.Now().After(deadline) {
 					steps = append(steps, stepObs{Events: rec.take(), Ret: "RStuck", Applied: [][2]int{}, Pending: [][2]int{}})
 					return steps // the instance is abandoned
@@ -392,7 +416,7 @@ func main() {
 	rng := lib.NewRng(f.Seed)
 	out := lib.NewOut("C27", f)
 	out.Imports = "From Verif Require Import Model.ResourcePack.\n"
-	out.Rule = "histories of 1..14 operations (queue 40% / response 45% / remove, clear 15%; ids from a pool of 2..4 incl. uuid.Nil, 8 response statuses weighted towards accepted/successful/declined; 3 of 8 histories start with a scenario: decline-then-queue, several packs of one id, response before any queue) on a fresh handler from resourcepack.NewHandler for protocols of all three families (legacy 47..754, 1.17-1.20.2 755..764, modern 765..774), with and without a backend in flight; every call in a goroutine with a 2 s watchdog; distinct = distinct (protocol, backend, history); non-trivial = at least 3 operations with a queue and a response among them"
+	out.Rule = "histories of 1..14 operations (queue 40% / response 45% / remove, clear 15%; ids from a pool of 2..4 incl. uuid.Nil, 8 response statuses weighted towards accepted/successful/declined; 3 of 8 histories start with a scenario: decline-then-queue, several packs of one id, response before any queue) on a fresh handler from resourcepack.NewHandler for protocols of all three families (legacy 47..754, 1.17-1.20.2 755..764, modern 765..774), with and without a backend in flight; every call in a goroutine with a 2 s watchdog (a call counts as stuck when it has not returned by then and its goroutine is parked, e.g. in sync.RWMutex.Lock; a merely starved goroutine is given up to 40 s); distinct = distinct (protocol, backend, history); non-trivial = at least 3 operations with a queue and a response among them"
 
 	var cases []*caseT
 	add := func(fam string, protos []int, n int) {
